@@ -133,6 +133,40 @@ def obligations(tier, seed):
         obs.append(Ob(id='C13.point-ops.%s' % rep, prop='C13', group='C13.pt.%s' % rep, prelude=pre2, wrappers=ws + [wd, wp, wm, wpe], inputs=[(ct, 'a'), (ct, 'b')], body=body,
                       contract='forall a,b:%s with the raw expression defined: same-unit QuantityPoint comparisons, p - p, p +/- d, p += d equal the raw operators on the stored values, converted to the point\'s rep (its Diff type is Quantity<Unit, Rep>)' % ct,
                       functions_under_contract=('au::QuantityPoint operators (same unit)',)))
+    # ---- same unit, DIFFERENT reps: + - and the six comparisons are the raw operators of C++ on the two stored values (usual arithmetic conversions: the common type)
+    mrp = [('i16', 'i64'), ('u32', 'i64'), ('u8', 'i32'), ('u32', 'i32'), ('i64', 'u64'), ('i8', 'u16')]
+    if tier == 'thorough': mrp += [('u16', 'i16'), ('i32', 'i64'), ('u64', 'u8'), ('i8', 'i16')]
+    for (r1, r2) in mrp:
+        c1, c2 = G.ctype(r1), G.ctype(r2)
+        tag = '%s_%s' % (r1, r2)
+        m1 = 'au::make_quantity<%s>(a)' % U; m2 = 'au::make_quantity<%s>(b)' % U
+        CT_ = G.ctype(G.promoted(G.common(r1, r2)))
+        wpl = Wrapper('w_mrplus_' + tag, 'int64_t', [(c1, 'a'), (c2, 'b')], 'return (int64_t)(%s + %s).in(%s{});' % (m1, m2, U))
+        wmi = Wrapper('w_mrminus_' + tag, 'int64_t', [(c1, 'a'), (c2, 'b')], 'return (int64_t)(%s - %s).in(%s{});' % (m1, m2, U))
+        wrp = Wrapper('w_mrrawplus_' + tag, 'int64_t', [(c1, 'a'), (c2, 'b')], 'return (int64_t)(a + b);')
+        wrm = Wrapper('w_mrrawminus_' + tag, 'int64_t', [(c1, 'a'), (c2, 'b')], 'return (int64_t)(a - b);')
+        wsz = Wrapper('w_mrsize_' + tag, 'int32_t', [], 'return (int)(sizeof((%s + %s).in(%s{})) == sizeof(%s)) + 2 * (int)(std::is_signed<decltype((%s + %s).in(%s{}))>::value == std::is_signed<%s>::value);'
+                      % (m1.replace('(a)', '(%s{})' % c1), m2.replace('(b)', '(%s{})' % c2), U, CT_, m1.replace('(a)', '(%s{})' % c1), m2.replace('(b)', '(%s{})' % c2), U, CT_))
+        ops = [('eq', '=='), ('ne', '!='), ('lt', '<'), ('le', '<='), ('gt', '>'), ('ge', '>=')]
+        wc = [Wrapper('w_mr%s_%s' % (n, tag), 'bool', [(c1, 'a'), (c2, 'b')], 'return %s %s %s;' % (m1, op, m2)) for n, op in ops]
+        wr = [Wrapper('w_mrraw%s_%s' % (n, tag), 'bool', [(c1, 'a'), (c2, 'b')], 'return a %s b;' % op) for n, op in ops]
+        CTr = G.promoted(G.common(r1, r2))      # std::common_type of the two reps
+        fitsct = lambda e: '(%s >= %s && %s <= %s)' % (e, G.lit(G.tmin(CTr)), e, G.lit(G.tmax(CTr)))
+        # the raw expression must be defined when the common type is signed (no overflow); for an unsigned common type everything is defined (modular)
+        okp = fitsct('((i128)a + (i128)b)') if G.REPS[CTr]['signed'] else '1'
+        okm = fitsct('((i128)a - (i128)b)') if G.REPS[CTr]['signed'] else '1'
+        body = '''
+  CHECK(%s() == 3, "result-rep-has-the-size-and-signedness-of-the-common-type");
+  if (%s) CHECK(%s(a, b) == %s(a, b), "plus-is-the-raw-plus-of-the-two-stored-values");
+  if (%s) CHECK(%s(a, b) == %s(a, b), "minus-is-the-raw-minus-of-the-two-stored-values");
+%s
+''' % (wsz.name, okp, wpl.name, wrp.name, okm, wmi.name, wrm.name,
+       '\n'.join('  CHECK(%s(a, b) == %s(a, b), "%s-is-the-raw-comparison-of-the-two-stored-values");' % (x.name, y.name, n) for x, y, (n, op) in zip(wc, wr, ops)))
+        obs.append(Ob(id='C13.mixedrep.%s' % tag, prop='C13', group='C13.mr.%s' % tag, prelude=pre + '\n#include <type_traits>', wrappers=[wpl, wmi, wrp, wrm, wsz] + wc + wr,
+                      inputs=[(c1, 'a'), (c2, 'b')], body=body.replace('%s{}' , '%s{}'), extra_cxxflags=('-Wno-sign-compare',),
+                      contract='forall a:%s, b:%s (raw expression defined): same-unit +, - and the six comparisons of quantities with DIFFERENT reps equal the raw C++ operator applied to the two stored '
+                               'values (usual arithmetic conversions), and the result rep has the size and signedness of the common type' % (c1, c2),
+                      functions_under_contract=('au::operator+,-,==..>=(Quantity<U,R1>, Quantity<U,R2>)',)))
     for rep in ('f32', 'f64'):
         ct = G.ctype(rep)
         bits = 'vf_f32_bits' if rep == 'f32' else 'vf_f64_bits'
